@@ -79,17 +79,14 @@ predicate judged there, "M" = also compared with the extracted model).  "+" mark
   not driven                                      floats / bools as in-memory identifiers (equal to ints in Python; outside
                                                   "identifier"); a genome database with two genome sets (only_genomeset refuses
                                                   it before the matching starts); meta.id_attr given as InstrumentedAttribute
-                                                  (cannot come from a file); FIFOs / unreadable entries; '?' in the directory
-                                                  path itself (same cause as the defect below)
+                                                  (cannot come from a file); FIFOs / unreadable entries
 
-GENUINE DEFECT found by the audit (unchanged /repo): a genome file whose NAME contains '?' (e.g. 'refs?x.gdb', the only
-.gdb/.db entry, next to one signature file).  gambit.db.sqla.file_sessionmaker and gambit.cli.common.CLIContext build the
-engine with f'sqlite:///{path}', so SQLAlchemy cuts the path at '?': load_from_dir fails (and CREATES an empty file 'refs' in
-the database directory), and if an entry 'refs' exists and is a genome database THAT file is loaded although it is not a genome
-file of the directory.  The three directories-special cases that show it are kept and counted
-('dir:known-defect question mark ...'); k_dir exempts exactly the load outcome of a directory whose single genome-file name
-contains '?' (locate_files and "not exactly one" are still judged there).  Fix: create_engine(URL.create('sqlite',
-database=os.fspath(path)))."""
+GENUINE DEFECT found by the audit in the code as found, repaired in /repo by a fix: commit (repo_fixes/C04-sqlite-url.diff):
+a genome file whose NAME contains '?' (e.g. 'refs?x.gdb', the only .gdb/.db entry, next to one signature file).
+gambit.db.sqla.file_sessionmaker and gambit.cli.common.CLIContext built the engine with f'sqlite:///{path}', so SQLAlchemy cut
+the path at '?': load_from_dir failed (and CREATED an empty file 'refs' in the database directory), and if an entry 'refs'
+existed and was a genome database THAT file was loaded although it is not a genome file of the directory.  The three
+directories-special cases that showed it are kept and judged like every other case (counted as 'dir:question mark ...')."""
 import itertools
 import json
 import os
@@ -129,8 +126,7 @@ ASSUMPTIONS = ['rows of the genome set are distinct rows (hypothesis NoDup gs of
                'jaccarddist_array(query, chunk) is map (jaccarddist query) chunk (property C05); chunksize is None or > 0',
                'the genome database holds exactly one genome set; files do not change while loaded',
                'identifiers are Python / NumPy integers within int64 or strings without NUL (floats and bools, which Python '
-               'equates with integers, are not identifiers); a genome file name does not contain \'?\' (known defect, see the '
-               'module docstring of harness/c04.py)',
+               'equates with integers, are not identifiers)',
                'command-line genome-file queries: the query signature is the set of K-mers following the prefix on either strand '
                'of a record (harness own_kmers; that gambit computes this set is property C01/C06)']
 CORRESPONDENCES = ['load', 'dir', 'cli', 'multi', 'match']
@@ -448,7 +444,7 @@ def _validate_forms(case, g, ids):
 			return False
 	names = case.get('names')
 	if names is not None:
-		if len(names) != 2 or names[0] == names[1] or not all(valid_name(n) for n in names) or '?' in names[0]:
+		if len(names) != 2 or names[0] == names[1] or not all(valid_name(n) for n in names):
 			return False
 		if case.get('via', 'dir') in ('dir', 'ctor') and not (has_ext(names[0], GEXT) and has_ext(names[1], SEXT)):
 			return False
@@ -930,12 +926,10 @@ def k_dir(ctx, cases):
 		ctx.count(f'dir:genome-files={min(len(gm), 2)}{"+" if len(gm) > 2 else ""},signature-files={min(len(sm), 2)}{"+" if len(sm) > 2 else ""}')
 		exact = len(gm) == 1 and len(sm) == 1
 		what = None
-		# GENUINE DEFECT of the unchanged code (reported by the coverage audit, see the module docstring): a genome file
-		# whose name contains '?' is opened through the URL 'sqlite:///<path>', which cuts the path at the '?'.  Only the
-		# load outcome of exactly such a directory is exempted (and counted); locate_files and "not exactly one" stay judged.
-		defect = exact and '?' in gm[0]
-		if defect:
-			ctx.count(f'dir:known-defect question mark in genome file name: genome file is {kinds[gm[0]]}, load {"returns" if o_load[0] == "ok" else "fails"}')
+		# former defect (repaired in /repo, see the module docstring): a genome file whose name contains '?' was opened
+		# through the URL 'sqlite:///<path>', which cut the path at the '?'.  Judged like every other directory; counted.
+		if exact and '?' in gm[0]:
+			ctx.count(f'dir:question mark in genome file name: genome file is {kinds[gm[0]]}, load {"returns" if o_load[0] == "ok" else "fails"}')
 		if o_loc[0] == 'ok' and not exact:
 			what = (f'locate_files returned {o_loc[1:]} although the directory holds {len(gm)} genome file(s) {gm} and '
 			        f'{len(sm)} signature file(s) {sm}')
@@ -943,8 +937,6 @@ def k_dir(ctx, cases):
 			what = f'locate_files returned {o_loc[1:]}, the genome file is {gm[0]!r} and the signature file {sm[0]!r}'
 		elif o_loc[0] == 'err' and exact:
 			what = f'locate_files failed with {o_loc[1]} although {gm[0]!r} is the only genome file and {sm[0]!r} the only signature file'
-		elif defect:
-			pass
 		elif o_load[0] == 'ok' and not exact:
 			what = f'load_from_dir produced a database from a directory with {len(gm)} genome file(s) and {len(sm)} signature file(s)'
 		elif o_load[0] == 'ok' and (kinds[gm[0]] != 'gdb' or kinds[sm[0]] != 'sig'):
@@ -964,8 +956,6 @@ def k_dir(ctx, cases):
 			ml = ('err',)
 		if ml[0] != o_loc[0] or (ml[0] == 'ok' and ml != o_loc):
 			ctx.broke('dir: locate_files implementation vs model', f'{c}: impl {o_loc}, model {m_loc}')
-		if defect:
-			continue
 		if (m_load[0] == 'ok') != (o_load[0] == 'ok') or (m_load[0] == 'ok' and (m_load[1] != sorted(o_load[1]) or m_load[1] != want_pairs)):
 			ctx.broke('dir: load_from_dir implementation vs model', f'{c}: impl {_show(o_load)}, model {m_load}')
 
@@ -1014,7 +1004,7 @@ def k_cli(ctx, cases):
 		allnames = list(file_names(c)) + [e[0] for e in ex]
 		if (validate(c) and c.get('fmt', 'json') in CLI_FMTS and c.get('qin', 'sigfile') in CLI_QIN and c.get('dbvia', 'opt') in ('opt', 'env', 'long')
 		        and all(valid_name(e[0]) and e[1] in CONTENT_CODE for e in ex) and len(set(allnames)) == len(allnames)
-		        and not any('?' in n and has_ext(n, GEXT) for n in allnames) and c.get('via', 'dir') == 'dir'
+		        and c.get('via', 'dir') == 'dir'
 		        and has_ext(allnames[0], GEXT) and has_ext(allnames[1], SEXT)):
 			ok_cases.append(c)
 		else:
@@ -1754,7 +1744,7 @@ def gen_dir_special(ctx, rng):
 		yield 'dir', dict(entries=[[gn, 'gdb'], [sn, 'sig']])
 		yield 'dir', dict(entries=[[gn, 'gdb'], [sn, 'sig'], ['z' + gn, 'junk']])
 		n_s += 2
-	# the genuine defect found by the audit (exempted in k_dir, counted): '?' in the genome file's name
+	# the genuine defect found by the audit (repaired in /repo; judged like every other case): '?' in the genome file's name
 	yield 'dir', dict(entries=[['refs?x.gdb', 'gdb'], ['s.gs', 'sig']])
 	yield 'dir', dict(entries=[['refs', 'gdb'], ['refs?x.gdb', 'junk'], ['s.gs', 'sig']])
 	yield 'dir', dict(entries=[['refs?x.gdb', 'gdb'], ['other.db', 'gdb'], ['s.gs', 'sig']])
